@@ -257,13 +257,18 @@ def bound_args(repo, fi, call):
     return b
 
 
-def path_conditions(func_node, target):
-    """[(test, truth)] of the If statements that enclose `target` in func_node, outermost first; `elif` chains contribute the negation of
+def path_conditions(func_node, target, guards=False):
+    """[(test, truth)] of the If statements that enclose `target` in func_node (and of the guard clauses `if t: raise/return` that precede it in an enclosing block), outermost first; `elif` chains contribute the negation of
     every earlier test (an `elif` is an If inside an orelse)."""
     out = []
 
     def visit(stmts, conds):
+        conds = list(conds)
         for st in stmts:
+            if guards and isinstance(st, ast.If) and not st.orelse and st.body and isinstance(st.body[-1], (ast.Raise, ast.Return, ast.Continue, ast.Break)) \
+                    and not any(n is target for n in ast.walk(st)):
+                conds.append((st.test, False))       # a guard clause that leaves: what follows runs under the negated test
+                continue
             if any(n is target for n in ast.walk(st)):
                 if isinstance(st, ast.If):
                     if any(n is target for b in st.body for n in ast.walk(b)):
@@ -317,7 +322,7 @@ def known_facts(func_node, target, total_order=True):
                 out.append(ast.Compare(left=a, ops=[ast.Lt()], comparators=[b]))
             return
         out.append(negate(t))
-    for test, truth in path_conditions(func_node, target):
+    for test, truth in path_conditions(func_node, target, guards=True):
         atoms(test, truth)
     res = []
     for a in out:
@@ -353,4 +358,23 @@ def expand_table_comprehension(func_node, comp):
         if not isinstance(r, (ast.Tuple, ast.List)) or len(r.elts) != len(names):
             return None
         out.append(r.elts[k])
+    return out
+
+
+def simple_assigns(fn_node):
+    """Assign statements `name = value` of a function, with parallel assignments `a, b = x, y` presented as the separate statements
+    `a = x`, `b = y` (synthetic nodes positioned at the original statement)."""
+    out = []
+    for n in ast.walk(fn_node):
+        if not isinstance(n, ast.Assign):
+            continue
+        if len(n.targets) == 1 and isinstance(n.targets[0], (ast.Tuple, ast.List)) and isinstance(n.value, (ast.Tuple, ast.List)) \
+                and len(n.targets[0].elts) == len(n.value.elts) and not any(isinstance(e, ast.Starred) for e in n.value.elts):
+            for t, v in zip(n.targets[0].elts, n.value.elts):
+                a = ast.Assign(targets=[t], value=v, type_comment=None)
+                ast.copy_location(a, n)
+                a._parent = getattr(n, "_parent", None)
+                out.append(a)
+        else:
+            out.append(n)
     return out
